@@ -1,9 +1,10 @@
-\* C03 thorough (replay 2): 1 thread; instances new(), shared(); property maps {a:1},{a:2,b:1}; kinds push/root; guard form (frames re-entered);
+\* C03 thorough (replay 2): 1 thread; instances default(), setup()-built, shared(); property maps {a:1},{a:2,b:1}; kinds push/root; guard form (frames re-entered);
 \* <= 3 frames, 1 task, nesting <= 3, panic unwinding; every transition replayed.
 SPECIFICATION Spec
 CONSTANTS
     NThreads = 1
-    StoreOf <- MC_Store2
+    StoreOf <- MC_StoreS
+    InstKind <- MC_KindS
     NKeys = 2
     PropChoices <- MC_Props2
     Kinds <- MC_PushRoot
